@@ -48,7 +48,7 @@ def qRequired : ActName → Bool
 
 /-- actions that read the byte under the cursor -/
 def readsInp : ActName → Bool
-  | .updateTagNameHash | .finishAttrValue => true
+  | .updateTagNameHash | .finishAttrValue | .emitCurrentToken | .emitCurrentTokenAndEof => true
   | _ => false
 
 def absCalls : List Call → Ab → Option Ab
@@ -72,6 +72,35 @@ equal and, when they are `ok`, the sink states are related -/
 def OpRel {α : Type} (K0 : κ → κ → Prop) (rs rw : κ × Except Err α) : Prop :=
   EPanic rs.2 ∨ (rw.2 = rs.2 ∧ ((∃ a, rs.2 = .ok a) → K0 rs.1 rw.1))
 
+/-- the parts of a doctype lexeme are inside the split input (or the two inputs end together, so that a part
+out of range in one is out of range in the other): the silent `get` of `to_token` gives the same result -/
+def DtIn (inpS inpW : Bytes) (δ : Nat) : Option NonTagOutline → Prop
+  | some (.doctype d) => inpW.length = inpS.length + δ ∨ leNonTag inpS.length (.doctype d)
+  | _ => True
+
+theorem leNonTag_mono {U U' : Nat} {n : NonTagOutline} (h : U ≤ U') (hn : leNonTag U n) : leNonTag U' n := by
+  cases n with
+  | doctype d =>
+    obtain ⟨a, b, c⟩ := hn
+    have ho : ∀ o, leOR U o → leOR U' o := by
+      intro o ho; cases o with
+      | none => trivial
+      | some r => exact Nat.le_trans ho h
+    exact ⟨ho _ a, ho _ b, ho _ c⟩
+  | _ => trivial
+
+theorem dtIn_of {inpS inpW : Bytes} {δ np : Nat} {o : Option NonTagOutline}
+    (hin : np ≤ inpS.length ∨ inpW.length = inpS.length + δ) (hu : ∀ n, o = some n → leNonTag np n) : DtIn inpS inpW δ o := by
+  cases o with
+  | none => trivial
+  | some n =>
+    cases n with
+    | doctype d =>
+      rcases hin with h | h
+      · exact Or.inr (leNonTag_mono h (hu _ rfl))
+      · exact Or.inl h
+    | _ => trivial
+
 /-- What the proof needs from the sink: handling corresponding lexemes in `K`-related sink states gives
 equal results and related states (unless the split run hits a panic branch, e.g. a slice out of range);
 and a text lexeme the whole run emits in one piece is equivalent to the two pieces of the split run,
@@ -82,7 +111,7 @@ structure OpsSim (ops : SinkOps κ) (inpS inpW : Bytes) (δ : Nat) (K : Nat → 
     (Loc : κ → Nat → Nat → TextType → Prop) : Prop where
   tag : ∀ pc raw o ks kw, K 0 ks kw →
     OpRel (K 0) (ops.handleTag inpS ⟨pc + δ, raw, o⟩ ks) (ops.handleTag inpW ⟨pc, shR δ raw, shTag δ o⟩ kw)
-  nonTag : ∀ pc raw (o : Option NonTagOutline) ks kw, K 0 ks kw →
+  nonTag : ∀ pc raw (o : Option NonTagOutline) ks kw, K 0 ks kw → DtIn inpS inpW δ o →
     OpRel (K 0) (ops.handleNonTag inpS ⟨pc + δ, raw, o⟩ ks) (ops.handleNonTag inpW ⟨pc, shR δ raw, o.map (shNonTag δ)⟩ kw)
   text : ∀ pc a x d tt ks kw, K d ks kw → Loc ks (pc + δ) (a + d - δ) tt → 0 < d → δ ≤ a + d → a + d ≤ x →
     OpRel (K 0)
